@@ -86,6 +86,16 @@ fn n_call1(vm: &mut Vm<Aux>, f: Value, x: Value) -> Result<Value, ExecutionError
 
 pub const MENU: [&str; 4] = ["log1", "add2", "fail0", "call1"];
 
+/// hand-written witnesses, run before the random programs
+const CORPUS: [(&str, &str); 6] = [
+    ("R-1b", include_str!("../../findings/C01/R-1b_min_by_key_key_function_grows_table.json")),
+    ("R-2a", include_str!("../../findings/C01/R-2a_captured_local_below_a_statement_value.json")),
+    ("R-2b", include_str!("../../findings/C01/R-2b_two_captured_locals_in_one_loop_body.json")),
+    ("R-3", include_str!("../../findings/C01/R-3_get_past_end_nil_key.json")),
+    ("R-4", include_str!("../../findings/C01/R-4_closure_captures_shadowed_outer_variable.json")),
+    ("R-5", include_str!("../../findings/C01/R-5_unset_global_reads_nil.json")),
+];
+
 pub fn new_vm(host: &[&str]) -> Vm<'static, Aux> {
     let mut vm = Vm::new(Aux::default()).unwrap().with_max_iter(400_000);
     vm.runtime_data = RuntimeData::new(256 * 1024 * 1024, 16 * 1024, 400).unwrap();
@@ -1299,9 +1309,21 @@ pub fn gen(a: &Args) {
     let mut rng = Rng::new(a.seed);
     let mut w = CaseWriter::new(&a.out, "C01Check", 12);
     let allow_shadow = std::env::var("C01_SHADOW").is_ok();
+    // fixed corpus first: the witnesses of the findings of this check (findings/C01/index.json)
+    let mut corpus: Vec<(&str, Module)> = CORPUS
+        .iter()
+        .map(|(name, text)| (*name, serde_json::from_str::<Module>(text).expect("corpus module")))
+        .collect();
+    corpus.reverse();
     while w.len() < a.n {
         let mut feats = BTreeMap::new();
-        let m = gen_program(&mut rng, &mut feats, allow_shadow);
+        let m = match corpus.pop() {
+            Some((name, m)) => {
+                feats.insert(format!("corpus.{}", name), 1);
+                m
+            }
+            None => gen_program(&mut rng, &mut feats, allow_shadow),
+        };
         let host: Vec<&str> = if rng.chance(1, 10) {
             let drop = rng.below(MENU.len() as u64) as usize;
             MENU.iter().enumerate().filter(|(i, _)| *i != drop).map(|(_, n)| *n).collect()
@@ -1336,7 +1358,7 @@ pub fn gen(a: &Args) {
             w.count(k);
         }
         let term = case_term(&m, &host, &obs);
-        let id = w.push(term, feats.len() >= 6);
+        let id = w.push(term, feats.len() >= 6 || feats.keys().any(|k| k.starts_with("corpus.")));
         if std::env::var("C01_KEEP").is_ok() {
             let _ = std::fs::copy(&cur, a.out.join(format!("prog_{}.json", id)));
         }
